@@ -101,7 +101,10 @@ class Env:
         if hit is not None:
             return hit
         if 's' in spec:
-            ss = [self.pm.AISSentence(s.encode()) for s in spec['s']]
+            # a sentence with an NMEA tag block in front (\\c:<receiver time>*hh\\!AIVDM...) goes through the factory, as a
+            # reader would produce it: the sentence object then carries the (lazily parsed) tag block
+            ss = [self.pm.NMEASentenceFactory.produce(s.encode()) if s.startswith('\\') else self.pm.AISSentence(s.encode())
+                  for s in spec['s']]
             obj = ss[0] if len(ss) == 1 else self.pm.AISSentence.assemble_from_iterable(ss)
             dec = obj.decode()
             fs = {a.name for a in self.attr.fields(type(dec))}
@@ -155,7 +158,7 @@ def real_message(rng, mmsi, kind=None):
     dims = dict(to_bow=p([0, 1, 511]), to_stern=p([0, 7, 511]), to_port=p([0, 3, 63]), to_starboard=p([0, 2, 63]))
     pos = dict(lon=p([0, -179.5, 12.25, 181]), lat=p([0, -89.5, 53.5, 91]))
     if kind in (1, 2, 3):
-        d = dict(type=kind, speed=p([0, 0.1, 10.5, 102.2]), course=p([0, 0.1, 359.9, 360]), heading=p([0, 1, 359, 511]),
+        d = dict(type=kind, speed=p([0, 0.1, 10.5, 102.2, 102.3]), course=p([0, 0.1, 359.9, 360]), heading=p([0, 1, 359, 511]),
                  turn=p([0, -128, 127, 5]), status=p([0, 1, 5, 15]), **pos)
     elif kind == 4:
         d = dict(type=4, **pos)
@@ -165,7 +168,7 @@ def real_message(rng, mmsi, kind=None):
     elif kind == 9:
         d = dict(type=9, speed=p([0, 1, 1022]), course=p([0, 0.1, 360]), **pos)
     elif kind == 18:
-        d = dict(type=18, speed=p([0, 0.1, 102.2]), course=p([0, 359.9]), heading=p([0, 359, 511]), **pos)
+        d = dict(type=18, speed=p([0, 0.1, 102.2, 102.3]), course=p([0, 359.9]), heading=p([0, 359, 511]), **pos)
     elif kind == 19:
         d = dict(type=19, speed=p([0, 5.5]), course=p([0, 10.0]), heading=p([0, 90]), shipname=p(['', 'B CLASS']),
                  ship_type=p([0, 37]), **pos, **dims)
@@ -184,9 +187,18 @@ def real_message(rng, mmsi, kind=None):
         d = dict(type=14, text=p(['', 'SAFETY']))
     d['mmsi'] = mmsi
     try:
-        return {'s': list(e.pyais.encode_dict(d, talker_id='AIVDM'))}
+        ss = list(e.pyais.encode_dict(d, talker_id='AIVDM'))
     except Exception:
-        return {'s': list(e.pyais.encode_dict(dict(type=1, mmsi=mmsi), talker_id='AIVDM'))}
+        ss = list(e.pyais.encode_dict(dict(type=1, mmsi=mmsi), talker_id='AIVDM'))
+    if len(ss) == 1 and rng.random() < 0.15:
+        # as it comes out of a reader fed by a station that stamps its sentences: a tag block with a receiver time that has
+        # nothing to do with the tracker's clock (last_updated is the clock / the explicit timestamp, never this field)
+        tb = 'c:' + str(rng.choice([1, 5, 1700000000, 1673259264 + 3]))
+        cs = 0
+        for ch in tb:
+            cs ^= ord(ch)
+        ss = ['\\' + tb + '*%02X' % cs + '\\' + ss[0]]
+    return {'s': ss}
 
 
 STUB_VALUES = [0, 0.0, '', False, None, 1, 'X', 2.5, True, -1]
@@ -1098,6 +1110,12 @@ def gen_history(rng, kind='mixed', with_queries=False, n_ops=None, raising=False
             if ordered and rng.random() < 0.35:
                 ops.append(['M'])                      # from here on timestamps may go back
                 ordered = False
+                if lus and rng.random() < 0.8:         # ... and one does right away: older than the newest track
+                    fresh = [m for m in ms if m not in lus]
+                    m = rng.choice(fresh) if fresh else min(lus, key=lambda k: lus[k])
+                    ts = max(lus.values()) - rng.choice([1, 2, 4]) if fresh else lus[m]
+                    ops.append(['U', now, rng.choice(pools[m]), ts])
+                    lus[m] = max(ts, lus.get(m, ts))
             else:
                 new = rng.choice([None, 0, 2, 4, 4, 6, 8, 12, 20, 40, max(T - 4, 1), T + 4])
                 ops.append(['T', new])
@@ -1132,8 +1150,10 @@ def gen_history(rng, kind='mixed', with_queries=False, n_ops=None, raising=False
                 ts = rng.choice(list(lus.values())) if lus else now        # equal to some track's timestamp
             elif x < 0.75:
                 ts = (latest if ordered else now) + rng.choice([0, 1, 2, 4])
-            elif x < 0.85:
+            elif x < 0.8:
                 ts = now - T + rng.choice([-1, 0, 1])   # born at the edge of expiry
+            elif x < 0.85:
+                ts = now + rng.choice([1, T - 1, T, T + 1, 2 * T])     # stamped ahead of the clock (a feeder whose clock runs fast)
             else:
                 ts = lus.get(m, now) + rng.choice([-4, -1, 1, 3])
             ops.append(['U', now, msg, ts])
